@@ -36,6 +36,24 @@ impl Drop for Tok {
     }
 }
 
+/// Error-arm payload: a different type with a different layout (the counted token does not sit at
+/// offset 0), so that dropping the wrong union arm cannot go unnoticed.
+#[repr(C)]
+pub struct TokE {
+    pub tag: u64,
+    pub inner: Tok,
+}
+impl TokE {
+    pub fn new() -> TokE {
+        TokE { tag: 0xE0E0_E0E0_E0E0_E0E0, inner: Tok::new() }
+    }
+}
+impl Clone for TokE {
+    fn clone(&self) -> TokE {
+        TokE::new()
+    }
+}
+
 /// A second payload type, for `into_converted_option::<Tok2>`.
 pub struct Tok2(pub Tok);
 impl From<Tok> for Tok2 {
